@@ -302,10 +302,9 @@ func (f *File) enterWriteMode() error {
 			}
 		}
 
-		if !f.flags.Append {
-			if _, err := f.writeBuf.Seek(0, io.SeekStart); err != nil {
-				return err
-			}
+		// Continue at the position the handle has been reading at or has been seeked to
+		if _, err := f.writeBuf.Seek(f.readPos, io.SeekStart); err != nil {
+			return err
 		}
 	}
 
